@@ -1,0 +1,97 @@
+//go:build verif
+
+package fp
+
+// Contracts for fp.ListAdaptor / fp.MakeList (list.go) — the lazy list cell
+// (memoised head thunk + memoised tail thunk) — properties C12 (lazy, in
+// order, terminates) and C04 (observing a cell twice gives the same answer
+// and evaluates nothing again) — checked by /verif/govc.  Comment-only file.
+// The combinators built on it are specified in list/verif_contracts.go.
+//
+// Unbounded part: one cell over arbitrary thunks h (head) and t (tail).
+// EqT(e, spec) says that e evaluates exactly the thunks spec evaluates, in the
+// same order: nothing is forced that the observation does not need.
+
+//@ lemma listCellLazy[T any](h func() Option[T], t func() List[T])
+//@   prop C12
+//@   ensures verifspec.Do(func() { MakeList(h, t) }) == 0 && TraceLen() == 0
+//@   tag constructionForcesNothing
+//@   ensures EqT(MakeList(h, t).IsEmpty(), !h().IsDefined())
+//@   tag isEmptyForcesHeadOnly
+//@   ensures EqT(MakeList(h, t).NonEmpty(), h().IsDefined())
+//@   tag nonEmptyForcesHeadOnly
+//@   ensures h().IsDefined() ==> EqT(MakeList(h, t).Head(), h().Get())
+//@   tag headForcesHeadOnly
+//@   ensures !h().IsDefined() ==> Panics(MakeList(h, t).Head())
+//@   tag headOfEmptyPanics
+//@   ensures EqT(MakeList(h, t).Tail(), t())
+//@   tag tailForcesTailOnly
+//@   ensures h().IsDefined() ==> EqT(verifspec.P2(MakeList(h, t).Unapply()), verifspec.P2(h().Get(), t()))
+//@   tag unapplyHeadThenTail
+//
+//@ lemma listCellMemoised[T any](h func() Option[T], t func() List[T])
+//@   prop C12 C04
+//@   ensures EqT(verifspec.Do(func() { l := MakeList(h, t); l.IsEmpty(); l.NonEmpty(); l.IsEmpty() }), verifspec.Do(func() { h() }))
+//@   tag emptinessTests
+//@   ensures h().IsDefined() ==> EqT(verifspec.Do(func() { l := MakeList(h, t); l.Head(); l.IsEmpty(); l.Head(); l.Tail(); l.Tail(); l.Unapply() }), verifspec.Do(func() { h(); t() }))
+//@   tag headAndTail
+//@   ensures h().IsDefined() ==> listCellStable(h, t)
+//@   tag sameAnswers
+//
+//@ ghost
+//@ func listCellStable[T any](h func() Option[T], t func() List[T]) bool {
+//@ 	l := MakeList(h, t)
+//@ 	h1 := l.Head()
+//@ 	t1 := l.Tail()
+//@ 	h2, t2 := l.Unapply()
+//@ 	return verifspec.Eq(verifspec.W[T](h1), verifspec.W[T](h2)) && t1 == t2 && verifspec.Eq(verifspec.W[T](l.Head()), verifspec.W[T](h1)) && l.Tail() == t1
+//@ }
+//@ end
+//
+// The zero value is the empty list; its Tail is an empty list again (and so on).
+//
+//@ lemma listCellZeroValue[T any](f func(T))
+//@   prop C12 C20
+//@   option unroll
+//@   ensures ListAdaptor[T]{}.IsEmpty() && !ListAdaptor[T]{}.NonEmpty() && Panics(ListAdaptor[T]{}.Head())
+//@   ensures ListAdaptor[T]{}.Tail().IsEmpty() && ListAdaptor[T]{}.Tail().Tail().IsEmpty() && Panics(ListAdaptor[T]{}.Tail().Head()) && ListAdaptor[T]{}.Tail().Tail().Tail().IsEmpty()
+//@   ensures len(ListAdaptor[T]{}.ToSeq()) == 0 && len(ListAdaptor[T]{}.Tail().ToSeq()) == 0
+//@   ensures EqT(verifspec.Do(func() { ListAdaptor[T]{}.Foreach(f); ListAdaptor[T]{}.Tail().Foreach(f) }), 0)
+//
+// Bounded: a chain of cells over literal elements; every cell evaluates its
+// element through the callback g, so the trace shows what was forced.
+//
+//@ ghost
+//@ // chain(g, i, n): the cells g(i), …, g(n-1)
+//@ func listChain[T any](g func(int) T, i, n int) List[T] {
+//@ 	return MakeList(func() Option[T] {
+//@ 		if i < n {
+//@ 			return Some(g(i))
+//@ 		}
+//@ 		return None[T]()
+//@ 	}, func() List[T] {
+//@ 		return listChain(g, i+1, n)
+//@ 	})
+//@ }
+//@ func listChainSeq[T any](g func(int) T, n int) Seq[T] {
+//@ 	r := make(Seq[T], n)
+//@ 	for i := 0; i < n; i++ {
+//@ 		r[i] = g(i)
+//@ 	}
+//@ 	return r
+//@ }
+//@ end
+//
+//@ lemma listCellBounded[T any](g func(int) T, f func(T))
+//@   prop C12 C04
+//@   option unroll
+//@   ensures EqT(Seq[T](listChain(g, 0, 3).ToSeq()), listChainSeq(g, 3)) && EqT(Seq[T](listChain(g, 0, 1).ToSeq()), listChainSeq(g, 1)) && EqT(Seq[T](listChain(g, 0, 0).ToSeq()), listChainSeq(g, 0))
+//@   tag toSeqInOrderOncePerElement
+//@   ensures EqT(verifspec.Do(func() { listChain(g, 0, 3).Foreach(f) }), verifspec.Do(func() { f(g(0)); f(g(1)); f(g(2)) })) && EqT(verifspec.Do(func() { listChain(g, 0, 0).Foreach(f) }), 0)
+//@   tag foreachInOrder
+//@   ensures EqT(verifspec.Do(func() { l := listChain(g, 0, 3); l.ToSeq(); l.Tail().Head(); l.Foreach(func(v T) {}); l.ToSeq() }), verifspec.Do(func() { g(0); g(1); g(2) }))
+//@   tag secondTraversalEvaluatesNothing
+//@   ensures EqT(listChain(g, 0, 3).Tail().Tail().Head(), g(2))
+//@   tag thirdOnly
+//@   ensures EqT(listChain(g, 0, 2).Tail().Tail().IsEmpty(), true) && Panics(listChain(g, 0, 2).Tail().Tail().Head()) && listChain(g, 0, 2).Tail().Tail().Tail().IsEmpty()
+//@   tag end
